@@ -2,6 +2,7 @@ package sortref
 
 import (
 	"net/http"
+	"net/url"
 	"path"
 	"strconv"
 	"strings"
@@ -60,6 +61,10 @@ func (k Keys) Less(i, j int) bool {
 // KeyParts construct a SplitKey with all its /-separated segments decomposed. It is sortable.
 func KeyParts(key string) SplitKey {
 	var res []string
+	if unescaped, err := url.PathUnescape(key); err == nil {
+		key = unescaped // keys built from a rendered $ref are URL-escaped
+	}
+
 	for _, part := range strings.Split(key[1:], "/") {
 		if part != "" {
 			res = append(res, jsonpointer.Unescape(part))
